@@ -26,7 +26,8 @@ class Runner:
         for s in stmts:
             if not curs:
                 break
-            if len(curs) > 1 and (isinstance(s, (ast.While, ast.For, ast.Try)) or (len(curs) > getattr(self.ex.c, 'max_paths', self.MAX_PATHS) and not isinstance(s, (ast.Return, ast.Raise))) or self.has_comprehension(s)):
+            split = getattr(self.ex.c, 'split_loops', False) and len(curs) <= 4 and isinstance(s, (ast.While, ast.For))
+            if len(curs) > 1 and not split and (isinstance(s, (ast.While, ast.For, ast.Try)) or (len(curs) > getattr(self.ex.c, 'max_paths', self.MAX_PATHS) and not isinstance(s, (ast.Return, ast.Raise))) or self.has_comprehension(s)):
                 curs = [self.join_states(None, curs)]
             nxt = []
             for cur in curs:
@@ -34,9 +35,26 @@ class Runner:
                 nxt.extend(o.st for o in res if o.kind == 'next')
                 outs.extend(o for o in res if o.kind != 'next')
             curs = nxt
+            if getattr(self.ex.c, 'cuts', None) and not self.ex.inline_depth:
+                self.do_cuts(s, curs)
         for cur in curs:
             outs.append(Outcome('next', cur))
         return outs
+
+    def do_cuts(self, s, states):
+        ex = self.ex
+        text = None
+        for k, (anchor, clauses) in enumerate(ex.c.cuts):
+            if text is None:
+                text = ast.unparse(s)
+            if not text.startswith(anchor):
+                continue
+            ex.cuts_seen = getattr(ex, 'cuts_seen', set()) | {k}
+            for st in states:
+                for j, cl in enumerate(clauses):
+                    g = ex.spec(cl, st, old=getattr(ex, 'resume_state', None) or ex.entry)
+                    ex.prove('cut/%d/%d' % (k, j), st.pc, g, detail='after line %d: %s' % (s.lineno, cl if isinstance(cl, str) else 'callable'))
+                    st.assume(g)
 
     def has_comprehension(self, s):
         return any(isinstance(n, (ast.ListComp, ast.For, ast.While)) for n in ast.walk(s))
@@ -77,7 +95,35 @@ class Runner:
         return [Outcome('next', st)]
 
     def do_yield(self, y, st):
-        raise OutOfSubset('yield (line %d)' % y.lineno)
+        """`yield e` as a statement of a two-phase generator: the at_yield clauses and an empty frame are proved here (nothing that
+        existed at entry was touched before the value is handed out), then the suspension is a havoc of `resume_modifies` under
+        `resume_ensures`.  More than one yield on a path is outside the subset."""
+        ex = self.ex
+        c = ex.c
+        if isinstance(y, ast.YieldFrom) or y.value is None or not c.at_yield:
+            raise OutOfSubset('yield (line %d) without an at_yield contract' % y.lineno)
+        if '$yielded' in st.env:
+            raise OutOfSubset('second yield on one path (line %d)' % y.lineno)
+        v = ex.ev(y.value, st)
+        for j, cl in enumerate(c.at_yield):
+            label = c.yield_labels.get(j, str(j))
+            ex.prove('at-yield/%s' % label, st.pc, ex.spec(cl, st, old=ex.entry, result=v), detail=cl if isinstance(cl, str) else 'callable')
+        from .verify import check_frame
+        from .spec import Contract
+        check_frame(ex, Contract(c.qual + '#phase1', modifies=[]), st, tag='at-yield/frame/')
+        st.env = dict(st.env)
+        st.env['$yielded'] = v
+        st.env['yielded'] = v          # ghost name for invariants and postconditions
+        if getattr(ex, 'resume_state', None) is not None:
+            raise OutOfSubset('yield reached on several paths (line %d)' % y.lineno)
+        # suspension: the caller caches the value, constructs other nodes, and resumes the generator later
+        from . import calls
+        resume = Contract(c.qual + '#resume', modifies=c.resume_modifies, ensures=c.resume_ensures, trusted=True,
+                          why='what may happen while a two-phase constructor is suspended (constructor protocol)')
+        env = {k: val for k, val in st.env.items() if not k.startswith('$')}
+        calls.apply_contract(ex, resume, None, None, [], {}, y, st, env=env)
+        ex.resume_state = st.fork()
+        return [Outcome('next', st)]
 
     def s_Assign(self, s, st):
         if isinstance(s.value, (ast.Yield, ast.YieldFrom)):
@@ -626,7 +672,7 @@ class Runner:
         saved = getattr(ex, 'loop_pre_state', None)
         ex.loop_pre_state = pre_loop
         try:
-            return ex.spec(inv, st, old=ex.entry, ghost=ghost)
+            return ex.spec(inv, st, old=getattr(ex, 'resume_state', None) or ex.entry, ghost=ghost)
         finally:
             ex.loop_pre_state = saved
 
@@ -652,7 +698,7 @@ class Runner:
         outs = self.drain()
         body_st = st.fork(); body_st.assume(c)
         exit_st = st.fork(); exit_st.assume(z3.Not(c))
-        v0 = ex.spec_val(variant, body_st, old=ex.entry) if variant else None
+        v0 = ex.spec_val(variant, body_st, old=getattr(ex, 'resume_state', None) or ex.entry) if variant else None
         if k not in ex.c.dead_loops:
             ex.prove('cover/loop-body/%d' % k, body_st.pc, z3.BoolVal(False), kind='cover', detail='loop %d body reachable' % k)
         bouts = self.block(s.body, body_st)
@@ -666,7 +712,7 @@ class Runner:
                         ex.prove('inv-preserved/%d/type-%s' % (k, n), o.st.pc, ex.type_pred(ty, o.st.env[n].t, o.st), detail='local %s keeps type %s' % (n, ty))
                 self.check_loop_frame(k, o.st)
                 if v0 is not None:
-                    v1 = ex.spec_val(variant, o.st, old=ex.entry)
+                    v1 = ex.spec_val(variant, o.st, old=getattr(ex, 'resume_state', None) or ex.entry)
                     ex.prove('variant/%d' % k, o.st.pc, z3.And(iv(v0.t) >= 0, iv(v1.t) < iv(v0.t)), detail='loop %d variant %s' % (k, variant))
             elif o.kind == 'break':
                 after_break.append(o.st)
@@ -764,6 +810,7 @@ class Runner:
         if rng is None and dict_ref is not None:
             # the order sequence of a dict lists exactly its keys (mutating a dict while iterating it is a RuntimeError in CPython)
             body_st.assume(z3.Select(z3.Select(ex.harr(body_st, '$dhas'), dict_ref), el.t))
+            body_st.assume(calls.hash_ok(el.t))       # a key of a dict was hashed when it was inserted
         self.assign(s.target, el, body_st)
         outs += self.drain()
         if k not in ex.c.dead_loops:
